@@ -212,6 +212,7 @@ def resolve_loop(g, continue_cmd, abort_cmd, allow_abort=True, strategy=None, mu
         g.ex.probe("conflict.stop")
         if must_abort or (allow_abort and g.rng.random() < 0.25):
             g.ex.gen_state["aborted"] = True
+            g.ex.gen_state["aborted_kind"] = abort_cmd[0]
             yield g.git(*abort_cmd, aborts=True)
             return
         if g.has_conflicts():
@@ -334,7 +335,7 @@ def fam_cherry_pick(g):
     if after_abort or rng.random() < 0.8:
         yield upstream_change(g, pos, path)
         yield from g.commit_all()
-    ranged = n > 1 and rng.random() < 0.5
+    ranged = n > 1 and rng.random() < 0.5 and not g.gated("pick_conflict_multi_commit_notes")
     if ranged:
         yield g.git("cherry-pick", "src~%d..src" % n, rewrite=True)
     else:
@@ -891,7 +892,13 @@ def fam_stash_pathspec(g):
     rng = g.rng
     yield from two_files_with_ai_work(g)
     f1, f2 = g.ex.gen_state["two_files"]
-    yield g.git("stash", "push", "-q", "--", f1, rewrite=True)
+    spec = f1
+    if "/" in f1:
+        # the pathspec spellings people use for "everything under that directory"
+        d = f1.rsplit("/", 1)[0]
+        spec = rng.choice([f1, f1, d, d + "/", d + "/*"])
+    g.ex.probe("stash_pathspec." + ("file" if spec == f1 else "dir"))
+    yield g.git("stash", "push", "-q", "--", spec, rewrite=True)
     if rng.random() < 0.7:
         yield from g.commit_all()
     yield g.git("stash", "pop", "-q", rewrite=True)
@@ -989,6 +996,18 @@ def fam_partial_amend(g):
     while len(files) < 2:
         yield g.ai_edit(new_file=True)
         files = g.worktree_files()
+    if g.gated("amend_drops_pending_untracked_file"):
+        # known finding: an amend forgets the pending lines of a file that is still untracked
+        for _ in range(4):
+            tracked = set(g.w.tracked_files(g.repo))
+            if len([f for f in files if f in tracked]) >= 2:
+                break
+            yield g.human_edit(new_file=True)
+            yield from g.commit_all()
+            files = g.worktree_files()
+        tracked = set(g.w.tracked_files(g.repo))
+        if len([f for f in files if f in tracked]) >= 2:
+            files = [f for f in files if f in tracked]
     f1, f2 = rng.sample(files, 2)
     s = g.pick_session()
     kinds = ["insert", "append"] if g.gated("partial_unstaged_nonpure_hunk") else ["insert", "append", "replace"]
@@ -996,6 +1015,17 @@ def fam_partial_amend(g):
     yield g.edit(s, path=f2, kinds=kinds)
     yield g.git("add", "--", f1)
     yield g.git("commit", "-q", "-m", g.msg(), check=True)
+    if rng.random() < 0.5:
+        # the amend leaves the second file out (it stays pending through INITIAL only) and it is committed afterwards
+        g.ex.probe("partial_amend.other_file_stays_pending")
+        if rng.random() < 0.5:
+            yield g.edit(g.pick_session(), path=f1, kinds=["insert", "append"])
+            yield g.git("add", "--", f1)
+            yield g.git("commit", "-q", "--amend", "--no-edit", check=True, rewrite=True)
+        else:
+            yield g.git("commit", "-q", "--amend", "-m", g.msg(), check=True, rewrite=True)
+        yield from g.commit_all()
+        return
     if rng.random() < 0.3:
         yield g.human_edit(new_file=True)
     yield g.git("add", "-A")
